@@ -112,9 +112,12 @@ def integer_group(ctx, world, ev):
     outs = ev.run_method(g, "bytes_to_element", [b], st=st.fork())
     for o in session.rets(outs):
         vals = [v for v in o.state.heap[o.value.oid].values() if v != g] if isinstance(o.value, Obj) else []
-        ok = vals == [mk_app("be2int", (b,))] and has_eq(conds_of(o), mk_app("len", (b,)), wf)
-        ctx.ob("K3-decoder", "%s bytes_to_element" % gname, ok, "big-endian integer of exactly element_size_bytes bytes (inverse of to_bytes)" if ok else
-               "element decoder is not be2int on exactly element_size_bytes bytes")
+        ok = vals == [mk_app("be2int", (b,))]
+        ctx.ob("K3-decoder", "%s bytes_to_element" % gname, ok, "big-endian integer (inverse of to_bytes)" if ok else
+               "element decoder is not the big-endian integer of the input")
+        ok = has_eq(conds_of(o), mk_app("len", (b,)), wf)
+        ctx.ob("K3-width", "%s bytes_to_element" % gname, ok, "decoder accepts exactly element_size_bytes bytes (C05 D1)" if ok else
+               "decoder does not enforce the element width: not the inverse of the encoder")
 
 
 def ed25519(ctx, world, ev):
